@@ -913,6 +913,19 @@ func checkC15(r *Run) {
 			if seqLen > 1 {
 				// attribute sequences to the first transformation whose single application disagrees
 				key = "effect/sequence/" + cls
+				if cls == "entrypoint" {
+					// an entry point set to an object that does not exist, then a rename of that absent object
+					setAt := -1
+					for i, d := range descr {
+						if strings.HasPrefix(d, "schema_set_entry_point(") && strings.HasSuffix(d, "[absent]") {
+							setAt = i
+						}
+						if setAt >= 0 && i > setAt && strings.HasPrefix(d, "rename_object(") && strings.HasSuffix(d, "[absent]") {
+							key += "/dangling-entry-point-follows-rename-of-absent-object"
+							break
+						}
+					}
+				}
 			}
 			r.Violation(key, fmt.Sprintf("%v\n%s\ninput IR:\n%s", descr, detail, irSummary(schemas)), replay)
 		}
